@@ -1,4 +1,4 @@
-SERVED = ["C01", "C02", "C03", "C05", "C06", "C07", "C08", "C10", "C12", "C15", "C13", "C14", "C16", "C17", "C18", "C19", "C20"]
+SERVED = ["C01", "C02", "C03", "C05", "C06", "C07", "C08", "C09", "C10", "C12", "C15", "C13", "C14", "C16", "C17", "C18", "C19", "C20"]
 HOOKS = {
     "guard": "PSYCHEC_VERIF",
     "enable": "harness/Makefile compiles /repo's sources with -DPSYCHEC_VERIF into /verif/.cache/build-<flavour>/; "
@@ -44,6 +44,20 @@ CHECKS = {
                 "(citations per row); extraction (ExtrOcamlBasic); harness. Modelled not verified: lexIdentifier passing exactly the word to recognize/translate. "
                 "Print Assumptions: closed under the global context.",
         "technique": "Coq proof by verified symbolic checker (reflection, vm_compute) on a model regenerated from the source + translation validation",
+    },
+    "C09": {
+        "text": "Theorems: C09_all_slots_replaced (reflective, over the table regenerated on this run from the node headers and Disambiguator.cpp): every member of every node class that can hold an ambiguity node is "
+                "passed to visitMaybeAmbiguous*, and every other child of a class with a visit function is descended into; C09_no_ambiguity_left: on ANY tree whose ambiguity nodes have ordinary alternatives, when every "
+                "slot is handled and decisions are conclusive the traversal completes and the result contains no ambiguity node, wherever they were (C09_unhandled_slot_keeps_ambiguity: one unhandled slot keeps "
+                "the node silently); C09_block_catalogue: for EVERY block and start catalogue, after the block's own mentions a name is catalogued as a type iff the block mentions it as a type or it was one before and "
+                "the block does not mention it as a non-type (and symmetrically) — the erase-on-shadowing rule with nesting depths does what block scoping requires; hence C09_own_declaration_wins (shadowing) and "
+                "C09_unmentioned_is_inherited.  C09_late_redeclaration_refuted shows the catalogue is per block, not per position (C10's known finding).  Correspondence: generated programs placing every "
+                "ambiguity form in every statement/expression context with every way of declaring the names, under the four disambiguation modes: reading vs a positional symbol table, no node left in the default/"
+                "Heuristic modes, node only with its diagnostic in mode Algorithmic, one diagnostic per node and equal token coverage of both alternatives in mode None.",
+        "design_ref": "DESIGN.md section 6, C09",
+        "note": "Trusted: Coq kernel incl. vm_compute; translate/disamb.py (regular expressions over headers and Disambiguator.cpp; cross-checked behaviourally); hand-written catalogue/decision model C09Model.v; reference "
+                "symbol table gen/ambig.py; harness. Not modelled: the heuristic (guideline-imposition) strategy, the parser's creation of ambiguity nodes. Print Assumptions: closed under the global context.",
+        "technique": "Coq proofs (nested induction over arbitrary trees; induction over block items with a depth invariant) + reflective coverage check on a table regenerated from the source + correspondence with a reference symbol table",
     },
     "C12": {
         "text": "PARTIAL. Theorems about the model of TypedefNameTypeResolver::resolve over type terms, for EVERY environment of typedef declarations (any number, any chain length, any nesting of pointer/array/"
